@@ -221,8 +221,55 @@ pub fn main(args: &[String], which: &str) {
             }
         }
     }
+    if which == "c10" { ignore_family(&mut rep); }
     rep.write(out);
     println!("ok");
+}
+
+/// C10 family: an `include that reaches the walker through a macro expansion (0..3 levels of macros, both quoting styles, file present or
+/// missing) under ignore_include on / off. With ignore_include no file may be read (so a missing file is no error) and the directive
+/// contributes no tokens; without it the file is spliced or Include{File} is reported. (cwd = the materialised root)
+fn ignore_family(rep: &mut Report) {
+    let dir = "ignfam";
+    for (si, style) in ["\"f.svh\"", "<f.svh>"].iter().enumerate() {
+        for depth in 0..4usize {
+            for exists in [true, false] {
+                for ignore in [true, false] {
+                    let d = format!("{}/s{}d{}e{}", dir, si, depth, exists as u8);
+                    std::fs::create_dir_all(&d).unwrap();
+                    let mut top = String::new();
+                    if depth > 0 { top.push_str(&format!("`define INC1 `include {}\n", style)); }
+                    for k in 2..=depth { top.push_str(&format!("`define INC{} `INC{}\n", k, k - 1)); }
+                    top.push_str("w1\n");
+                    if depth == 0 { top.push_str(&format!("`include {}\n", style)); } else { top.push_str(&format!("`INC{}\n", depth)); }
+                    top.push_str("w2\n");
+                    std::fs::write(format!("{}/top.sv", d), &top).unwrap();
+                    let _ = std::fs::remove_file(format!("{}/f.svh", d));
+                    if exists { std::fs::write(format!("{}/f.svh", d), "inc_tok\n").unwrap(); }
+                    let inc = vec![PathBuf::from(&d)];
+                    let r = std::panic::catch_unwind(|| preprocess(PathBuf::from(format!("{}/top.sv", d)), &crate::api::no_defines(), &inc, false, ignore));
+                    let desc = format!("--- {}/top.sv\n{}--- f.svh {}\n--- ignore_include={} include through {} macro level(s)", d, top, if exists { "exists: inc_tok" } else { "missing" }, ignore, depth);
+                    rep.case(desc.as_bytes(), true); rep.count("ignore-family");
+                    let body = |t: &str| -> String { t.lines().filter(|l| !l.trim_start().starts_with("`define")).collect::<Vec<_>>().join(" ") };
+                    match r {
+                        Err(e) => rep.violation(&format!("panic: {}", util::panic_msg(e)), &desc, ""),
+                        Ok(Ok((t, _))) => {
+                            let b = body(t.text()); let toks: Vec<&str> = b.split_whitespace().collect();
+                            if ignore { if toks != ["w1", "w2"] { rep.violation(&format!("with ignore_include the `include must contribute nothing and no file may be read, but the output tokens are {:?}", toks), &desc, t.text()); } }
+                            else if exists { if toks != ["w1", "inc_tok", "w2"] { rep.violation(&format!("the included file is not spliced: output tokens {:?}", toks), &desc, t.text()); } }
+                            else { rep.violation("a missing include file must be reported as Include{File}", &desc, t.text()); }
+                        }
+                        Ok(Err(e)) => {
+                            let es = err_str(&e);
+                            if ignore { rep.violation(&format!("with ignore_include no file is read, but the run fails with {}", es), &desc, ""); }
+                            else if exists { rep.violation(&format!("unexpected error {}", es), &desc, ""); }
+                            else if !es.starts_with("Include[File(") { rep.violation(&format!("a missing include file must be reported as Include{{File}}, got {}", es), &desc, ""); }
+                        }
+                    }
+                }
+            }
+        }
+    }
 }
 
 /// C11: feeding the table of run 1 into run 2 == preprocessing the concatenation (text of the second part, final table)
